@@ -26,7 +26,12 @@ type mon struct{}
 func (mon) Name() string { return "cfgprio" }
 
 func (mon) Level(string) (string, string) {
-	return "exploration", "exhaustive lattice 9 field types x 16 source masks {tag default, JSON, env, cli} x {top-level, nested, doubly nested} x {comma, pipe tag syntax} x carriers {-config absolute, ~/ with HOME redirected, relative, CFG_CONFIG_B64, both (file wins), none} x legal cli spellings x value schemes (every pool value - zero, one, extremes, awkward strings, byte slices - in every source position, plus an empty text per textual source over non-zero lower sources), each with a sibling field mentioned by exactly the complementary sources; plus a history lattice in which the struct value handed to NewFlagSet is not fresh - per type x mask x nesting x tag syntax (a) every leaf pre-filled with non-zero garbage of its type (also a random quarter of all other cases), (b) reload: an earlier NewFlagSet+Parse round on the same struct value in which the field was mentioned by each of the 8 subsets of {JSON, env, cli} with other values, then the round under test, judged by its own sources only (the model never looks at the prior content); plus seeded random structs of 1..12 fields with independent masks, a quarter of them pre-filled and a quarter after an earlier random round; distinct_nontrivial = distinct structural signatures (carrier, path kind, decoy; per field type, mask, depth, tag syntax, cli spelling, which sources are empty/zero) of cases in which at least one winning source says something else than the next lower source"
+	return "exploration", "exhaustive lattice 9 field types x 16 source masks {tag default, JSON, env, cli} x {top-level, nested, doubly nested} x {comma, pipe tag syntax} x carriers {-config absolute, ~/ with HOME redirected, relative, CFG_CONFIG_B64, both (file wins), none} x legal cli spellings x value schemes (every pool value - zero, one, extremes, awkward strings, byte slices - in every source position, plus an empty text per textual source over non-zero lower sources), each with a sibling field mentioned by exactly the complementary sources; " +
+		"plus a history lattice in which the struct value handed to NewFlagSet is not fresh - per type x mask x nesting x tag syntax (a) every leaf pre-filled with non-zero garbage of its type (also a random quarter of all other cases), (b) reload: an earlier NewFlagSet+Parse round on the same struct value in which the field was mentioned by each of the 8 subsets of {JSON, env, cli} with other values, then the round under test, judged by its own sources only (the model never looks at the prior content); " +
+		"plus seeded random structs of 1..12 fields with independent masks, a quarter of them pre-filled and a quarter after an earlier random round. " +
+		"The thorough tier runs the same lattice over larger value pools and nesting depths 0,1,2,3,5: integers around 2^7..2^63 incl. 2^53+-1 and Min/MaxInt64/MaxUint64, floats -0 / subnormal / smallest normal / max / 1e23 in the spellings g, e, E, f and 25 digits, durations around every unit border spelled in every unit (ns, us, both micro signs, ms, s, m, h, fractional seconds, all units spelled out), strings with every JSON escape style, Unicode borders, look-alikes of other types, invalid UTF-8 (text sources), 4 KiB and 64 KiB values, byte slices of every padding length up to 64 KiB; JSON documents additionally CRLF/tab/blank padded and with every member written twice with the identical value; identifiers with digits and underscores and 400 two-word names; " +
+		"and adds: wide structs of 50..200 fields (flat, flat at the bottom of 1..5 levels, or spread over 5 levels) with independent masks; large values (64 KiB+1 and 1 MiB strings and byte slices in the tag, either JSON carrier, environment and command line, 15 masks x 3 carriers); reload chains of 3..5 NewFlagSet+Parse rounds on one struct value; 2..8 FlagSets of one struct type made and parsed in goroutines released together, each with its own struct value and command line (also under -race when ./check builds the race binary of this monitor); " +
+		"distinct_nontrivial = distinct structural signatures (carrier, path kind, decoy, history; per field type, mask, depth, tag syntax, cli spelling, which sources are empty/zero) of cases in which at least one winning source says something else than the next lower source"
 }
 
 func (mon) Assumptions(string) []string {
@@ -35,7 +40,9 @@ func (mon) Assumptions(string) []string {
 		"textual renderings are the canonical ones (strconv.FormatBool/FormatInt/FormatUint, FormatFloat 'g'/'e'/'f' shortest, Duration.String, base64 std with padding); JSON carries a Duration as integer nanoseconds and []byte as a base64 string",
 		"environment names are taken from a hand-written table of plain CamelCase identifiers (CFG_ + group path + field, upper snake case)",
 		"an environment variable such as CFG_CONFIG naming a file is not a source of the configuration path (the statement names -config and CFG_CONFIG_B64 only)",
-		"JSON null, unknown JSON keys and case-folded key matching are not generated",
+		"JSON null, unknown JSON keys and case-folded key matching are not generated; a Duration is never written as a JSON string and base64 is never written without padding (neither is accepted)",
+		"a JSON document that writes a member twice with the identical value mentions the field with that value (thorough tier only; members with two different values are never generated)",
+		"durations in text may be spelled in any unit time.ParseDuration knows (the package's own tests write 5m and 10s), floats in any of the spellings g/e/E/f of strconv.FormatFloat",
 		"a struct that is not zero when handed to NewFlagSet (pre-filled, or parsed before) must end up exactly as a fresh one would: unmentioned fields hold the tag default, an empty/missing default being the zero value",
 	}
 }
@@ -49,22 +56,57 @@ type shardArgs struct {
 
 const latticeParts = 8
 
+// latticePartsOf: the thorough lattice (larger value pools, a fourth nesting depth) is cut finer.
+func latticePartsOf(tier string) int {
+	if tier == "thorough" {
+		return 60
+	}
+	return latticeParts
+}
+
 func (mon) Plan(prop, tier string, seed int64) []drv.Shard {
 	var out []drv.Shard
-	nrand, rparts := 48000, 8
-	if tier == "thorough" {
-		nrand, rparts = 1600000, 80 // many small processes: types made by reflect.StructOf are never freed
+	add := func(kind string, parts, count, secs int, race bool) {
+		for p := 0; p < parts; p++ {
+			a, _ := json.Marshal(shardArgs{Kind: kind, Part: p, Parts: parts, Count: count / parts})
+			name := fmt.Sprintf("%s-%d", kind, p)
+			if race {
+				name = fmt.Sprintf("%s-race-%d", kind, p)
+			}
+			out = append(out, drv.Shard{Name: name, Args: a, Secs: secs, Race: race})
+		}
 	}
-	for p := 0; p < latticeParts; p++ {
-		a, _ := json.Marshal(shardArgs{Kind: "lattice", Part: p, Parts: latticeParts})
-		out = append(out, drv.Shard{Name: fmt.Sprintf("lattice-%d", p), Args: a, Secs: 600})
+	if tier != "thorough" {
+		add("lattice", latticeParts, 0, 600, false)
+		add("rand", 8, 48000, 900, false)
+		return out
 	}
-	for p := 0; p < rparts; p++ {
-		a, _ := json.Marshal(shardArgs{Kind: "rand", Part: p, Parts: rparts, Count: nrand / rparts})
-		out = append(out, drv.Shard{Name: fmt.Sprintf("rand-%d", p), Args: a, Secs: 900})
+	// Thorough. Many small processes: types made by reflect.StructOf are never freed. The heavy
+	// kinds come first so that the tail of the run is filled with small shards. Watchdogs are
+	// generous (a shard takes a minute or two on an idle core).
+	add("wide", thoroughWideParts, thoroughWide, 3600, false)
+	add("big", 12, 0, 3600, false)
+	add("chain", 48, thoroughChain, 3600, false)
+	add("conc", 24, thoroughConc, 3600, false)
+	if self, err := os.Executable(); err == nil {
+		if _, err := os.Stat(self + ".race"); err == nil { // only when ./check builds the -race binary of this monitor
+			add("conc", 4, thoroughConcRace, 3600, true)
+		}
 	}
+	add("lattice", latticePartsOf(tier), 0, 3600, false)
+	add("rand", 240, thoroughRand, 3600, false)
 	return out
 }
+
+// sizes of the thorough tier (cases)
+const (
+	thoroughRand      = 2400000
+	thoroughWide      = 100000
+	thoroughWideParts = 400
+	thoroughChain     = 480000
+	thoroughConc      = 240000
+	thoroughConcRace  = 8000
+)
 
 func caseID(cs *Case, n int) string {
 	b, _ := json.Marshal(cs)
@@ -80,12 +122,17 @@ func (mn mon) Run(sh drv.Shard, c *drv.Ctx) {
 		os.Exit(2)
 	}
 	defer h.close()
+	deep = sh.Tier == "thorough" // before anything is generated
 	n := 0
 	exec := func(cs *Case) bool {
 		n++
-		if n%16 == 1 {
+		switch {
+		case cs.Kind == "big" || cs.Kind == "wide": // not worth marshalling megabytes for a progress note
+			c.Progress(fmt.Sprintf("case %d of shard %s (kind %s, carrier %s)", n, sh.Name, cs.Kind, cs.Carrier), true)
+		case n%16 == 1:
 			c.Progress(caseID(cs, n), false)
 		}
+		h.observe(cs)
 		k, e, o := runCase(cs, h)
 		if strings.HasPrefix(k, brokenPrefix) {
 			// the generator produced something illegal: the check is broken, glb is not
@@ -137,9 +184,30 @@ func (mn mon) Run(sh drv.Shard, c *drv.Ctx) {
 			}
 		}
 		c.Add("random_cases", int64(n))
+	case "wide", "chain", "conc":
+		gen := map[string]func(*rand.Rand) *Case{"wide": wideCase, "chain": chainCase, "conc": concCase}[a.Kind]
+		salt := map[string]int64{"wide": 11, "chain": 13, "conc": 17}[a.Kind]
+		if sh.Race {
+			salt += 100
+		}
+		r := rand.New(rand.NewSource(sh.Seed*1000003 + int64(a.Part)*7 + salt))
+		for i := 0; i < a.Count; i++ {
+			cs := gen(r)
+			if c.NumSamples() < 1 && i == 3 && a.Part < 2 && a.Kind != "wide" {
+				c.Sample(cs)
+			}
+			if !exec(cs) {
+				break
+			}
+		}
+	case "big":
+		genBig(sh.Seed, a.Part, a.Parts, exec)
 	}
 	for k, v := range h.stats {
 		c.Add(k, v)
+	}
+	for k, v := range h.maxes {
+		c.MaxOf(k, v)
 	}
 	for cell := range h.cells {
 		c.SetAdd("type_mask_cells", cell)
@@ -148,7 +216,7 @@ func (mn mon) Run(sh drv.Shard, c *drv.Ctx) {
 
 // Finish: the lattice must have visited every type x mask cell, and every kind of winner.
 func (mon) Finish(prop, tier string, mg *drv.Merged) (inconclusive []string) {
-	if mg.Sum["lattice_shards_done"] == latticeParts {
+	if mg.Sum["lattice_shards_done"] == int64(latticePartsOf(tier)) {
 		if n := len(mg.Sets["type_mask_cells"]); n != nTypes*16 {
 			inconclusive = append(inconclusive, fmt.Sprintf("only %d of %d type x mask cells were observed", n, nTypes*16))
 		}
